@@ -10,3 +10,4 @@ std::map<std::string, CmdFn>& cmdTable();
 void registerCoreCmds();   // run / validate / lifecycle
 void registerValueCmds();  // namematch / json / lua / promela
 void registerXformCmds();  // transform
+void registerConcCmds();   // lifecycle / producers / timed / churn
